@@ -133,3 +133,40 @@ Definition bind {A B} (r : res A) (f : A -> res B) : res B :=
 Notation "'let*' x ':=' r 'in' k" := (bind r (fun x => k)) (at level 200, x pattern, r at level 100, k at level 200).
 
 Definition rmap {A B} (f : A -> B) (r : res A) : res B := bind r (fun a => Ok (f a)).
+
+(** sequential reads: the next [n] octets and the rest, or [None] when short *)
+Definition take (n : nat) (l : bytes) : option (bytes * bytes) :=
+  if n <=? length l then Some (firstn n l, skipn n l) else None.
+
+Lemma take_app a r n : length a = n -> take n (a ++ r) = Some (a, r).
+Proof.
+  intros <-. unfold take. rewrite app_length.
+  assert (H : (length a <=? length a + length r) = true) by (apply Nat.leb_le; lia). rewrite H.
+  rewrite firstn_app, Nat.sub_diag, firstn_all, firstn_O, app_nil_r.
+  rewrite skipn_app, Nat.sub_diag, skipn_all. reflexivity.
+Qed.
+
+Lemma take_inv n l a r : take n l = Some (a, r) -> l = a ++ r /\ length a = n.
+Proof.
+  unfold take. destruct (n <=? length l) eqn:E; [|discriminate]. intros [= <- <-].
+  apply Nat.leb_le in E. rewrite firstn_skipn, firstn_length. split; [reflexivity | lia].
+Qed.
+
+Lemma take_none n l : take n l = None <-> length l < n.
+Proof.
+  unfold take. destruct (n <=? length l) eqn:E.
+  - apply Nat.leb_le in E. split; [discriminate | lia].
+  - apply Nat.leb_gt in E. split; auto.
+Qed.
+
+Definition of_opt {A} (o : option A) : res A := match o with Some a => Ok a | None => Err end.
+
+(** big-endian value of a byte string *)
+Definition n_of_be (b : bytes) : N := fold_left (fun a x => (a * 256 + b2n x)%N) b 0%N.
+Lemma n_of_be_be16 n : (n < 65536)%N -> n_of_be (be16 n) = n.
+Proof. intros H. pose proof (rd16_be16 n H) as K. cbn in *. unfold rd16 in K. lia. Qed.
+Lemma n_of_be_be32 n : (n < 4294967296)%N -> n_of_be (be32 n) = n.
+Proof. intros H. pose proof (rd32_be32 n H) as K. cbn in *. unfold rd32 in K. lia. Qed.
+
+Lemma Ok_inj {A} (a b : A) : Ok a = Ok b -> a = b.
+Proof. intros H. injection H as H. exact H. Qed.
